@@ -1,11 +1,15 @@
 import DuneVerif.Common.Proto
 import DuneVerif.Model.C06
+import DuneVerif.Model.C06Life
 /-! line-protocol driver for C06 (format: see harness/mpi_c06.cc)
 
-  c06 P=<np> B=<items> mode=<f|v> f=<n> ty=<l|p|c|t|v|n> dirs=<f|b|F|B ..> [ctor=<m|M|i|I|c|a>] : E p q [..] [..];S p [..];F p n;...
+  c06 P=<np> B=<items> mode=<f|v> f=<n> ty=<letter> dirs=<f|b|F|B ..> [ctor=<m|M|i|I|c|a|object history>] : E p q [..] [..];S p [..];F p n;...
 
 `dirs`: one communicate call per letter; f/b use a handle of the case's mode, F/B one of the other mode.  The item type
-and the constructor do not change what has to be delivered (the default-buffer constructors M/I need B=32768).
+does not change what has to be delivered.  `ctor`: one of the round-two letters or an object history (statements
+K<n> N<s><k><m>[b] C<s><t> A<s><t> D<s> U<s> X<s> joined by '.'), executed with `lifeStep` (Model/C06Life.lean); a
+call is answered with the `maxBufferSize` of the object it is made on, which must point to the case's map (0; the
+decoy map is 1) and have a buffer of at least B items.
 
 answer: `r0{q:(idx:[items],..) q':(..) | <second call>} r1{..} ..` -/
 open DV DV.C06
@@ -81,6 +85,93 @@ def showRank (B : Nat) (ranks : List (RankData Nat)) (q : Nat) (fwd : Bool) : St
           toString e.rank ++ ":(" ++ ",".intercalate ((r.calls.filter (·.count != 0)).map showCall) ++ ")"
         else toString e.rank ++ ":HANG")
 
+/-! ### object histories -/
+
+structure Stmt where
+  op : Char
+  s : Nat := 0
+  t : Nat := 0
+  size : Option Nat := none
+  map : Nat := 0
+
+def digit? (c : Char) : Option Nat := if '0' ≤ c ∧ c ≤ '9' then some (c.toNat - '0'.toNat) else none
+
+/-- 1 to 7 decimal digits -/
+def number? (cs : List Char) : Option Nat :=
+  if cs.isEmpty || cs.length > 7 then none else cs.foldlM (fun acc c => (digit? c).map (acc * 10 + ·)) 0
+
+/-- the round-two constructor letters as object histories -/
+def legacyLife (letter : String) (B : Nat) : Option String :=
+  match letter with
+  | "m" => some s!"N0mr{B}"
+  | "M" => some "N0Mr"
+  | "i" => some s!"N0ir{B}"
+  | "I" => some "N0Ir"
+  | "c" => some s!"N1mr{B}.C01.D1"
+  | "a" => some s!"N1mr{B}.N0md{B + 3}.A00.A01.D1"
+  | _ => none
+
+def parseStmt? (tok : String) : Option Stmt :=
+  match tok.toList with
+  | ['N', s, k, m] =>
+    if (k == 'M' || k == 'I') && (m == 'r' || m == 'd') then (digit? s).map fun s => { op := 'N', s, map := if m == 'r' then 0 else 1 }
+    else none
+  | 'N' :: s :: k :: m :: rest =>
+    if (k == 'm' || k == 'i') && (m == 'r' || m == 'd') then do
+      let s ← digit? s
+      let b ← number? rest
+      if b = 0 then none else some { op := 'N', s, size := some b, map := if m == 'r' then 0 else 1 }
+    else none
+  | ['C', s, t] => do some { op := 'C', s := ← digit? s, t := ← digit? t }
+  | ['A', s, t] => do some { op := 'A', s := ← digit? s, t := ← digit? t }
+  | ['D', s] => do some { op := 'D', s := ← digit? s }
+  | ['U', s] => do some { op := 'U', s := ← digit? s }
+  | ['X', s] => do some { op := 'X', s := ← digit? s }
+  | _ => none
+
+/-- (macro value or 0, statements) -/
+def parseLife? (ctor : String) (B : Nat) : Option (Nat × List Stmt) := do
+  let prog ← if ctor.length == 1 then legacyLife ctor B else some ctor
+  let toks := prog.splitOn "."
+  if toks.length > 40 then none
+  let (K, toks) ←
+    match toks with
+    | t :: rest =>
+      match t.toList with
+      | 'K' :: num => do
+        let n ← number? num
+        if n = 0 then none else some (n, rest)
+      | _ => some (0, toks)
+    | [] => none
+  let stmts ← toks.mapM parseStmt?
+  some (K, stmts)
+
+structure LifeRun where
+  w : DV.C06.World
+  /-- buffer size of the object of every call made so far (in the order of `dirs`) -/
+  bufs : List Nat
+
+/-- runs the history; `none`: not a valid case -/
+def runLife (dflt B ncalls : Nat) (stmts : List Stmt) : Option LifeRun := do
+  let call := fun (r : LifeRun) (s : Nat) => do
+    let o ← r.w.slots s
+    if o.interface ≠ 0 || o.maxBufferSize < B || r.bufs.length ≥ ncalls then none
+    let w ← DV.C06.lifeStep dflt r.w (.use s)
+    some { w, bufs := r.bufs ++ [o.maxBufferSize] : LifeRun }
+  let r ← stmts.foldlM (fun (r : LifeRun) st =>
+    match st.op with
+    | 'N' => (DV.C06.lifeStep dflt r.w (.construct st.s st.size st.map)).map ({ r with w := · })
+    | 'C' => (DV.C06.lifeStep dflt r.w (.copy st.s st.t)).map ({ r with w := · })
+    | 'A' => (DV.C06.lifeStep dflt r.w (.assign st.s st.t)).map ({ r with w := · })
+    | 'D' => (DV.C06.lifeStep dflt r.w (.destroy st.s)).map ({ r with w := · })
+    | 'U' => (DV.C06.lifeStep dflt r.w (.use st.s)).map ({ r with w := · })
+    | 'X' => call r st.s
+    | _ => none) { w := DV.C06.World.init, bufs := [] }
+  -- the calls no X statement placed are made on slot 0
+  let r ← (List.range (ncalls - r.bufs.length)).foldlM (fun r _ => call r 0) r
+  -- a communicator the class misuses would be a defect of the class, not of the case: report it loudly
+  if r.w.fault then none else some r
+
 def handle (line : String) : String :=
   let (head, body) :=
     match line.splitOn " : " with
@@ -99,13 +190,16 @@ def handle (line : String) : String :=
           kv? "ty" ty, kv? "dirs" dirs, ctor? with
     | some P, some B, some mode, some f, some ty, some dirs, some ctor =>
       let fixed := mode == "f"
-      if (mode != "f" && mode != "v") || !(["l", "p", "c", "t", "v", "n"].contains ty) || P = 0 || P > 64 || B = 0 || f = 0
+      if (mode != "f" && mode != "v") || ty.length != 1 || !(ty.toList.all "lpctvnghkqdewzxyabsriuf".toList.contains)
+         || P = 0 || P > 62 || B = 0 || B > 1000000 || f = 0
          || f > B || dirs.isEmpty || !(dirs.toList.all fun c => c == 'f' || c == 'b' || c == 'F' || c == 'B')
-         || !(["m", "M", "i", "I", "c", "a"].contains ctor) || ((ctor == "M" || ctor == "I") && B != 32768) then "bad-op"
+         || ctor.isEmpty then "bad-op"
       else
-        match (body.splitOn ";").mapM (parseSeg? P B) with
-        | none => "bad-op"
-        | some segs =>
+        match (parseLife? ctor B).bind (fun (K, stmts) => runLife (if K = 0 then 32768 else K) B dirs.length stmts),
+              (body.splitOn ";").mapM (parseSeg? P B) with
+        | none, _ => "bad-op"
+        | _, none => "bad-op"
+        | some life, some segs =>
           let segs := segs.filterMap id
           -- the handles of a call in the case's mode / in the other mode
           let ranksOf := fun (fx : Bool) => (List.range P).map (rankData segs fx f)
@@ -113,8 +207,8 @@ def handle (line : String) : String :=
           let other := ranksOf (!fixed)
           " ".intercalate ((List.range P).map fun q =>
             "r" ++ toString q ++ "{" ++
-              " | ".intercalate (dirs.toList.map fun d =>
-                showRank B (if d == 'f' || d == 'b' then same else other) q (d == 'f' || d == 'F')) ++ "}")
+              " | ".intercalate ((dirs.toList.zip life.bufs).map fun (d, Bobj) =>
+                showRank Bobj (if d == 'f' || d == 'b' then same else other) q (d == 'f' || d == 'F')) ++ "}")
     | _, _, _, _, _, _, _ => "bad-op"
   | _ => "bad-op"
 
